@@ -155,6 +155,26 @@ def run (s : S) : List Lbl → Option S
     | some t => run t ls
     | none => none
 
+/-! ## Several calls through one wrapper
+
+`_AsyncTimeout` keeps nothing between calls (`_function` and `_timeout` are read-only; future,
+task, timer handle and the three callbacks are locals of each `__call__`), so a system of
+overlapping calls is the product of independent copies: a label of call `i` steps component `i`
+and leaves every other component alone. -/
+def stepAt (ss : List S) (i : Nat) (l : Lbl) : Option (List S) :=
+  match ss[i]? with
+  | none => none
+  | some s => (step s l).map (fun s' => ss.set i s')
+
+def runSys (ss : List S) : List (Nat × Lbl) → Option (List S)
+  | [] => some ss
+  | (i, l) :: tr => match stepAt ss i l with
+    | some ss' => runSys ss' tr
+    | none => none
+
+/-- the labels of call `j` in a system trace -/
+def proj (j : Nat) (tr : List (Nat × Lbl)) : List Lbl := (tr.filter (fun x => x.1 == j)).map (·.2)
+
 /-! ## The pinned code (before the repair), for the refutation witness only
 
 `on_completion` was `try: future.set_result(task.result()) except Exception as exc: …`: a task
